@@ -38,6 +38,11 @@ ASSUMPTIONS = [
 ]
 
 
+SITE_OBS = None      # set to a dict by C17: (file, line) -> observation of loop / iterator sites during symbolic execution
+ITER_METHODS = ("map", "flat_map", "fold", "for_each", "filter", "extend", "extend_from_slice", "collect", "to_vec", "sort", "dedup", "drain",
+                "chain", "zip", "all", "any", "sum", "rev", "enumerate", "skip", "take", "step_by", "iter", "iter_mut", "into_iter", "to_owned", "clone", "contains")
+
+
 class Outcome(object):
     def __init__(self, kind, value=None, pc=(), site=None, msg=None, events=(), notes=()):
         self.kind, self.value, self.pc, self.site, self.msg = kind, value, list(pc), site, msg
@@ -1167,7 +1172,18 @@ class Exec(object):
                 return self.eval(body, env + [scope])
         self.panic(line, "non-exhaustive match")
 
+    def observe_site(self, line, kind, n, symbolic=False, term=None):
+        if SITE_OBS is None:
+            return
+        o = SITE_OBS.setdefault((self.file, line), {"kind": kind, "counts": set(), "symbolic": False, "terms": []})
+        o["counts"].add(n)
+        if symbolic:
+            o["symbolic"] = True
+        if term is not None and self.ctx is not None and len(o["terms"]) < 6:
+            o["terms"].append((list(self.ctx.pc), term, self))
+
     def loop_site(self, line, kind, n, bound=None):
+        self.observe_site(line, kind, n, symbolic=bool(bound))
         key = (self.file, line)
         s = self.loop_sites.setdefault(key, {"kind": kind, "max_iter": 0, "bound": set(), "fn": self.ret_stack[-1][0].name if self.ret_stack else "?"})
         s["max_iter"] = max(s["max_iter"], n)
@@ -1180,6 +1196,8 @@ class Exec(object):
         checks0 = len(self.ctx.trace) if self.ctx else 0
         while True:
             self.loop_site(line, "loop", n)
+            if self.ctx is not None and len(self.ctx.trace) > checks0:
+                self.observe_site(line, "loop", n, symbolic=True)
             if n > self.max_loop and self.ctx is not None and len(self.ctx.trace) > checks0:
                 raise Unbounded(self.file, line, "`loop` still running after %d iterations with a data-dependent exit condition" % n)
             if n > 200000:
@@ -1202,6 +1220,8 @@ class Exec(object):
             c = self.eval(cond, env)
             if not isinstance(c, bool):
                 symbolic = True
+            if symbolic:
+                self.observe_site(line, "while", n, symbolic=True)
             if symbolic and n > self.max_loop:
                 raise Unbounded(self.file, line, "`while` still running after %d iterations with a data-dependent condition" % n)
             if n > 200000:
@@ -1245,6 +1265,7 @@ class Exec(object):
         lo, hi = seq[1], seq[2]
         lo_c = self.concretize(0 if lo is None else lo, 1 << 20, line)
         k = lo_c
+        self.observe_site(line, "for", 0, symbolic=True, term=zi(hi))
         while True:
             if not self.truth(self.compare("<", k, hi, line), line):
                 return
@@ -1619,6 +1640,8 @@ class Exec(object):
         if isinstance(v, list):
             return self.list_method(v, name, args, line, tf)
         if isinstance(v, tuple) and len(v) == 3 and v[0] == "range":
+            if v[2] is not None and not isinstance(v[2], (int, F)):
+                self.observe_site(line, "iter:" + name, 0, symbolic=True, term=zi(v[2]))
             return self.list_method(RList(self.iter_list(v, line)), name, args, line, tf)
         if isinstance(v, ResultV):
             return self.result_method(v, name, args, line)
@@ -1632,6 +1655,7 @@ class Exec(object):
             if name in ("as_slice", "clone", "as_ref"):
                 return v
             if name == "to_vec":
+                self.observe_site(line, "iter:to_vec", 32)
                 return RList([ByteChunk("digest", v)])
         if isinstance(v, SStruct):
             if name in ("clone", "to_owned"):
@@ -1827,6 +1851,8 @@ class Exec(object):
 
     def list_method(self, v, name, args, line, tf=None):
         rt = getattr(v, "rtype", None)
+        if SITE_OBS is not None and name in ITER_METHODS:
+            self.observe_site(line, "iter:" + name, len(v))
         if name == "len":
             return len(v)
         if name in ("iter", "iter_mut", "into_iter", "as_slice", "copied", "cloned", "as_ref", "borrow", "as_mut", "by_ref", "deref"):
